@@ -8,7 +8,7 @@ use super::common::*;
 use super::*;
 use crate::gen::{self, Knobs};
 use crate::sut::{self, bump, bump_by, guarded, mark, It};
-use scnr::{FindMatches, Scanner, ScannerModeSwitcher};
+use scnr::{Scanner, ScannerModeSwitcher};
 
 pub struct C12;
 
